@@ -40,8 +40,14 @@ func one(o *kit.Out, r *kit.Rand) {
 	ns := int(r.Range(1, 3))
 	var sched []raterun.Schedule
 	freqIdx := map[time.Duration]int{}
+	// a slow later schedule behind a fast first one: a tick of the fast ticker that is still
+	// pending when the slow schedule starts must not be taken for a tick of the slow one
+	slowLater := r.Chance(40)
 	for k := 0; k < ns; k++ {
 		f := time.Duration(2+3*k+r.Intn(2)) * time.Millisecond // distinct per schedule
+		if slowLater && k > 0 {
+			f = time.Duration(40+15*k+r.Intn(5)) * time.Millisecond
+		}
 		d := time.Duration(r.Range(8, 30)) * time.Millisecond
 		if k == 0 {
 			d = time.Duration(r.Range(0, 3)) * time.Millisecond
@@ -51,6 +57,13 @@ func one(o *kit.Out, r *kit.Rand) {
 	}
 	lg := &logT{}
 	fnDur := time.Duration(r.Range(0, 12)) * time.Millisecond
+	if slowLater {
+		fnDur = time.Duration(r.Range(2, 7)) * time.Millisecond // overruns the fast ticks, well below the slow period
+	}
+	var restartCalls []int64
+	var startsMu sync.Mutex
+	var starts []string
+	var t0 time.Time
 	blockFirst := r.Chance(35) // hold one invocation until released: the Stop-vs-running-function script
 	release := make(chan struct{})
 	var once sync.Once
@@ -62,7 +75,11 @@ func one(o *kit.Out, r *kit.Rand) {
 		if !ok {
 			k = 99
 		}
+		at := time.Since(t0)
 		lg.add(kit.List("1", kit.I(k)))
+		startsMu.Lock()
+		starts = append(starts, kit.List(kit.I(k), kit.I(int64(at))))
+		startsMu.Unlock()
 		cmu.Lock()
 		if k < ns {
 			counts[k]++
@@ -82,6 +99,7 @@ func one(o *kit.Out, r *kit.Rand) {
 		lg.add("[2]")
 	}
 	before := goleak.IgnoreCurrent()
+	t0 = time.Now() // before New: the first schedule's start-delay timer is armed there
 	rn, err := raterun.New(fn, sched)
 	if err != nil {
 		o.Fail("c18-new", "raterun.New failed")
@@ -89,7 +107,6 @@ func one(o *kit.Out, r *kit.Rand) {
 	}
 	ctx, cancel := context.WithCancel(context.Background())
 	defer cancel()
-	t0 := time.Now()
 	lg.add("[0]")
 	rn.Start(ctx)
 	restarts := int(kit.Pick(r, 0, 0, 1, 2))
@@ -100,6 +117,7 @@ func one(o *kit.Out, r *kit.Rand) {
 	}
 	for k := 0; k < restarts; k++ {
 		time.Sleep(time.Duration(r.Range(1, 40)) * time.Millisecond)
+		restartCalls = append(restartCalls, int64(time.Since(t0)))
 		lg.add("[3]")
 		rn.Restart()
 	}
@@ -170,4 +188,16 @@ func one(o *kit.Out, r *kit.Rand) {
 	o.Count("ending", map[bool]string{true: "stop", false: "cancel"}[useStop])
 	o.Count("held-invocation", kit.B(blockFirst))
 	o.Case("runner_trace_ok", []string{kit.I(ns), kit.List(evs...)}, "T", tags...)
+	// one-sided timing: an invocation with schedule k's frequency never comes before that
+	// schedule's own first tick can have been delivered (Start + delays up to k + one period)
+	var delays, freqs []int64
+	for _, sc := range sched {
+		delays = append(delays, int64(sc.StartDelay))
+		freqs = append(freqs, int64(sc.Frequency))
+	}
+	startsMu.Lock()
+	st := append([]string(nil), starts...)
+	startsMu.Unlock()
+	o.Count("profile", map[bool]string{true: "slow schedule behind a fast one, overrunning function", false: "fast schedules"}[slowLater])
+	o.Case("runner_times_ok", []string{kit.Ints(delays), kit.Ints(freqs), kit.Ints(restartCalls), kit.List(st...)}, "T", append(tags, "times")...)
 }
